@@ -2,7 +2,6 @@ package c17
 
 import (
 	"fmt"
-	"net"
 	"sync"
 	"sync/atomic"
 	"testing"
@@ -24,34 +23,14 @@ import (
 // quiescence the handler's slot accounting must equal the live tunnels: offering connections until
 // the first refusal must end with exactly `limit` tunnels open.
 
-// feedOne offers one connection and waits for its outcome (dialed through, or closed by the handler).
+// feedOne offers one connection and waits for its own outcome (admitted by the limit check and dialed
+// through, or refused).
 func (r *mappingRig) feedOne() (ok, admitted bool) {
-	l1, l2 := net.Pipe()
-	r.peers = append(r.peers, l2)
-	closed := make(chan struct{})
-	go func() {
-		var b [1]byte
-		l2.Read(b[:])
-		close(closed)
-	}()
-	d0 := r.cl.dials.Load()
-	r.ad.ch <- l1
-	r.fed++
-	deadline := time.After(5 * time.Second)
-	for {
-		if r.cl.dials.Load() > d0 {
-			return true, true
-		}
-		select {
-		case <-closed:
-			return true, r.cl.dials.Load() > d0
-		case <-r.cl.event:
-		case <-time.After(time.Millisecond):
-		case <-deadline:
-			r.timedOut = true
-			return false, false
-		}
+	before := r.admitted
+	if !r.feed(1) {
+		return false, false
 	}
+	return true, r.admitted > before
 }
 
 func roundMappingCloser(t vkit.TB, c Case) {
